@@ -1,7 +1,7 @@
 /-
 C15 — RTX `apt=` association (RFC 4588 §8.1), mirroring `parse_apt` / `extract_rtx_apt_map` of
-`src/rtx.rs` on ASCII input (strings are byte lists; `str::trim` strips ASCII white space, the harness
-generates ASCII only; `u8::from_str` accepts an optional `+` and decimal digits up to 255).
+`src/rtx.rs` (strings are the UTF-8 byte lists of Rust `str`s; `str::trim` strips Unicode White_Space;
+`u8::from_str` accepts an optional `+` and decimal digits up to 255).
 -/
 import RtcModel.Base.C15Bytes
 
@@ -9,11 +9,46 @@ namespace RtcModel.C15
 
 def isWs (b : UInt8) : Bool := b = 0x20 || b = 0x09 || b = 0x0A || b = 0x0B || b = 0x0C || b = 0x0D
 
-def trimStart : Bytes → Bytes
-  | [] => []
-  | b :: rest => if isWs b then trimStart rest else b :: rest
+/-- number of octets of a leading Unicode `White_Space` character (what `char::is_whitespace` accepts):
+U+0009..000D, U+0020, U+0085, U+00A0, U+1680, U+2000..200A, U+2028, U+2029, U+202F, U+205F, U+3000 -/
+def wsLen : Bytes → Nat
+  | b :: rest =>
+    if isWs b then 1
+    else match b.toNat, rest with
+      | 0xC2, c :: _ => if c.toNat = 0x85 || c.toNat = 0xA0 then 2 else 0
+      | 0xE1, c :: d :: _ => if c.toNat = 0x9A && d.toNat = 0x80 then 3 else 0
+      | 0xE2, c :: d :: _ =>
+        if c.toNat = 0x80 && ((0x80 ≤ d.toNat && d.toNat ≤ 0x8A) || d.toNat = 0xA8 || d.toNat = 0xA9 || d.toNat = 0xAF) then 3
+        else if c.toNat = 0x81 && d.toNat = 0x9F then 3 else 0
+      | 0xE3, c :: d :: _ => if c.toNat = 0x80 && d.toNat = 0x80 then 3 else 0
+      | _, _ => 0
+  | [] => 0
 
-def trim (s : Bytes) : Bytes := (trimStart (trimStart s).reverse).reverse
+/-- the same for a trailing character, on the reversed string -/
+def wsLenRev : Bytes → Nat
+  | b :: rest =>
+    if isWs b then 1
+    else match rest with
+      | c :: rest2 =>
+        if wsLen [c, b] = 2 then 2
+        else match rest2 with
+          | d :: _ => if wsLen [d, c, b] = 3 then 3 else 0
+          | [] => 0
+      | [] => 0
+  | [] => 0
+
+def trimStartF : Nat → Bytes → Bytes
+  | 0, s => s
+  | fuel + 1, s => let k := wsLen s; if k = 0 then s else trimStartF fuel (s.drop k)
+
+def trimEndRevF : Nat → Bytes → Bytes
+  | 0, s => s
+  | fuel + 1, s => let k := wsLenRev s; if k = 0 then s else trimEndRevF fuel (s.drop k)
+
+def trimStart (s : Bytes) : Bytes := trimStartF s.length s
+
+/-- `str::trim` on the UTF-8 bytes of a string -/
+def trim (s : Bytes) : Bytes := (trimEndRevF s.length (trimStart s).reverse).reverse
 
 /-- `str::split(sep)` -/
 def splitOnByte (sep : UInt8) : Bytes → List Bytes
